@@ -174,7 +174,11 @@ def run(ctx):
                     d = MovingWindow(bandwidth=b, threshold_scale=scale, level=level).fit(X)
                     checks.append((f"MovingWindow(bandwidth={b}, level={level}).threshold_", d.threshold_, scale * doc_mw(n, p, b, level),
                                    scale * py2coq.pyeval(ir("MovingWindow.get_default_threshold"), {"n": n, "p": p, "b": b, "level": level})))
-            for nm, sav, k in [("L2Saving", L2Saving(), p), ("Saving(GaussianVarCost)", Saving(GaussianVarCost((0.0, 1.0))), 2 * p)]:
+            from skchange.costs import GaussianCovCost as _GCovC
+            # k = number of parameters of one segment, counted from the definition of the model: p means; p variances; p mean entries + the p (p + 1) / 2 distinct
+            # entries of a symmetric covariance matrix
+            for nm, sav, k in [("L2Saving", L2Saving(), p), ("Saving(GaussianVarCost)", Saving(GaussianVarCost((0.0, 1.0))), 2 * p),
+                               ("Saving(GaussianCovCost)", Saving(_GCovC((np.zeros(p), np.eye(p)))), p + sum(1 for a_ in range(p) for b_ in range(a_, p)))]:
                 d = CAPA(collective_saving=sav, collective_penalty_scale=scale, point_penalty_scale=scale).fit(X)
                 checks.append((f"CAPA({nm}).collective_penalty_", d.collective_penalty_, doc_capa(n, k, scale), doc_capa(n, k, scale)))
                 checks.append((f"CAPA({nm}).point_penalty_", d.point_penalty_, scale * k * p * math.log(n), scale * k * p * math.log(n)))
@@ -349,6 +353,46 @@ def run(ctx):
             v(f"PELT() on a series of {n_} rows: changepoint counts {counts} for penalty scales {scales_} are not non-increasing (a penalty above the cost of the whole series must give none)",
               {"n": n_, "scales": scales_, "counts": counts}, {"what": "pelt-monotone", "real": True, "long": True})
     sys.path.pop(0)
+    # ---- the fitted threshold / penalty belongs to the TRAINING data: applying the detector to a series of another length must neither change the attribute
+    #      nor make the detector use another value (detections on the new series = detections of a detector whose attribute is pinned to the fitted value) ----
+    from skchange.anomaly_detectors import CAPA as _CAPAo, CircularBinarySegmentation as _CBSo
+    from skchange.change_detectors import PELT as _PELTo, MovingWindow as _MWo, SeededBinarySegmentation as _SBSo
+    _rngo = np.random.default_rng(ctx.seed + 1516)
+    for it in range(ctx.n(4, 20)):
+        p_ = int(_rngo.integers(1, 3))
+        n1 = int(_rngo.integers(40, 90))
+        n2 = int(_rngo.choice([n1 // 3 + 8, 3 * n1 + 5]))
+        Xa = _rngo.normal(size=(n1, p_))
+        Xb = _rngo.normal(size=(n2, p_))
+        Xb[n2 // 3: n2 // 3 + 6] += 1.7        # a medium-sized event: detected or not depending on the threshold
+        Xb[2 * n2 // 3:] += 4.0
+        for name, mk, attrs, doc in [
+                ("PELT", lambda: _PELTo(penalty_scale=1.5), ["penalty_"], lambda n, p: [1.5 * 2 * p * math.log(n)]),
+                ("MovingWindow", lambda: _MWo(bandwidth=6, threshold_scale=1.5), ["threshold_"], lambda n, p: [1.5 * doc_mw(n, p, 6, 0.01)]),
+                ("SeededBinarySegmentation", lambda: _SBSo(threshold_scale=1.5), ["threshold_"], lambda n, p: [1.5 * 2 * p * math.sqrt(math.log(n))]),
+                ("CircularBinarySegmentation", lambda: _CBSo(threshold_scale=1.5, max_interval_length=30), ["threshold_"], lambda n, p: [1.5 * 2 * p * math.log(n * 30)]),
+                ("CAPA", lambda: _CAPAo(collective_penalty_scale=1.5, point_penalty_scale=1.5), ["collective_penalty_", "point_penalty_"],
+                 lambda n, p: [doc_capa(n, p, 1.5), 1.5 * p * p * math.log(n)])]:
+            d = mk().fit(Xa.copy())
+            before = [float(getattr(d, a)) for a in attrs]
+            ctx.case({"other-series": name, "it": it, "n_train": n1, "n_new": n2, "p": p_}, nontrivial=True)
+            ctx.count("attr_after_use", name)
+            for meth in ["predict", "transform", "transform_scores"]:
+                try:
+                    getattr(d, meth)(Xb.copy())
+                except NotImplementedError:      # seeded / circular binary segmentation publish no dense scores
+                    continue
+                except Exception as ex:
+                    ctx.violation(f"{name}: {meth} on a series of {n2} rows after fit on {n1} rows raised {type(ex).__name__}: {str(ex)[:100]}",
+                                  {"detector": name, "n_train": n1, "n_new": n2, "p": p_}, {"what": "other-series-exception", "detector": name})
+                    break
+                after = [float(getattr(d, a)) for a in attrs]
+                want = doc(n1, p_)
+                if after != before or not all(close(x, w, 1e-11) for x, w in zip(after, want)):
+                    ctx.violation(f"{name}: after fit on {n1} x {p_} and {meth} on a series of {n2} rows {attrs} = {after}; right after fit they were {before}; scale x documented "
+                                  f"default for the TRAINING shape = {want}", {"detector": name, "n_train": n1, "n_new": n2, "p": p_, "method": meth, "Xa": Xa.tolist(), "Xb": Xb.tolist()},
+                                  {"what": "attr-changed-by-use", "detector": name})
+                    break
     # ---- p is the NUMBER OF COLUMNS of the training data, whatever their labels: frames whose columns share a label ----
     import pandas as _pd
     from skchange.anomaly_detectors import CAPA as _CAPA, MVCAPA as _MVCAPA, CircularBinarySegmentation as _CBS
